@@ -9,7 +9,9 @@ proof   : Props/C19.v over Lib/Arbiter.v (model of pymtl3/stdlib/basic_rtl/arbit
                                                                         C19_at_most_one_grant, C19_grants_are_spec (= first requester at
                                                                         or after the pointer, cyclically), C19_history_refines_spec
             "priority rotates to the input after the last granted one"  C19_next_priority_is_rotl_of_grants, C19_pointer_moves_past_granted,
-                                                                        C19_no_request_keeps_priority
+                                                                        C19_no_request_keeps_priority,
+                                                                        C19_last_granted_has_least_priority, C19_no_back_to_back_grant
+                                                                        (the last grantee wins again only when it is the sole requester)
             "granted within nreqs granting cycles"                      C19_fair_measure (cyclic distance strictly decreases),
                                                                         C19_fairness (both variants), C19_fairness_plain
             "enabled variant advances only with enable high"            C19_en_low_keeps_priority, C19_plain_is_en_tied_high
